@@ -1,7 +1,7 @@
 //! Session lab core: configurations, scenarios, the public driver (real `FileUploadSession`
 //! on the real `LocalClient` store), store inspection and the oracles of C01 C02 C03 C11 C14 C15.
 
-use std::collections::{BTreeMap, BTreeSet};
+use std::collections::BTreeSet;
 use std::io::Cursor;
 use std::path::{Path, PathBuf};
 use std::sync::Arc;
@@ -15,8 +15,6 @@ use futures::FutureExt;
 use mdb_shard::file_structs::MDBFileInfo;
 use mdb_shard::MDBShardInfo;
 use serde_json::{json, Value};
-use sha2::{Digest, Sha256};
-use vcore::report::Partial;
 use xet_threadpool::ThreadPool;
 
 use crate::atoms::{word_str, Atoms};
